@@ -20,7 +20,7 @@ use zipora::concurrency::fiber_yield::{CooperativeUtils, YieldingIterator};
 use zipora::concurrency::pipeline::{
     BatchCollector, BatchMapStage, MapStage, Pipeline, PipelineConfig, PipelineStage,
 };
-use zipora::concurrency::work_stealing::{Task, WorkStealingExecutor, WorkStealingQueue};
+use zipora::concurrency::work_stealing::{ClosureTask, Task, WorkStealingExecutor, WorkStealingQueue};
 use zipora::error::{Result as ZResult, ZiporaError};
 
 /// `true` once the repository carries the pop_local repair (the model then uses the repaired pop_local).
@@ -50,6 +50,12 @@ struct Ctx {
     used: [usize; NK],
     rng: Rng,
     thorough: bool,
+    /// how task objects are built in the queue / executor cells (recorded as "tk" in the case): 0 = the harness's own `Task`
+    /// implementation, 1 = the library's `ClosureTask` (with_priority / with_stealable / with_estimated_duration), 2 = as 1, and
+    /// tasks of priority 0 that may be stolen go through `submit_closure` where the cell has an executor
+    tk: u8,
+    /// objects that live as long as the run and are used by many cases (c18_wide.rs)
+    objs: std::rc::Rc<wide::Objs>,
 }
 
 impl Ctx {
@@ -120,8 +126,18 @@ impl Task for CountTask {
     // the identity of the task, readable after it comes back out of a queue
     fn estimated_duration(&self) -> Duration { Duration::from_nanos(self.id as u64) }
 }
-fn mk_task(id: usize, code: i64, counters: &Arc<Vec<AtomicU32>>) -> Box<dyn Task> {
-    Box::new(CountTask { id, prio: code_prio(code), steal: code_steal(code), beh: code_beh(code), counters: counters.clone(), nest: None })
+fn mk_task(tk: u8, id: usize, code: i64, counters: &Arc<Vec<AtomicU32>>) -> Box<dyn Task> {
+    wrap(tk, id, CountTask { id, prio: code_prio(code), steal: code_steal(code), beh: code_beh(code), counters: counters.clone(), nest: None })
+}
+/// the task object as the cell's task kind wants it: the task itself, or the library's ClosureTask around it (the closure is the
+/// synchronous part of `execute`), carrying the same priority, stealability and - as its estimated duration - identity
+fn wrap<T: Task>(tk: u8, id: usize, t: T) -> Box<dyn Task> {
+    if tk == 0 { return Box::new(t); }
+    let (p, s) = (t.priority(), t.is_stealable());
+    Box::new(ClosureTask::new(move || Box::new(t).execute()).with_priority(p).with_stealable(s).with_estimated_duration(Duration::from_nanos(id as u64)))
+}
+fn submit_k<T: Task>(ex: &WorkStealingExecutor, tk: u8, id: usize, t: T) -> ZResult<()> {
+    if tk == 2 && t.priority() == 0 && t.is_stealable() { ex.submit_closure(move || Box::new(t).execute()) } else { ex.submit(wrap(tk.min(1), id, t)) }
 }
 fn task_id(t: &Box<dyn Task>) -> i64 { t.estimated_duration().as_nanos() as i64 }
 
@@ -155,9 +171,10 @@ fn with_rt<T>(threads: usize, f: impl Future<Output = T>) -> T {
 /// ops: task code = push_local, 1 = pop_local, 2 = steal, 3 = balance, 4 = len
 fn queue_case(cx: &mut Ctx, cap: usize, variant: u64, ops: &[i64], force: bool) {
     let cell = "WorkStealingQueue";
-    let case = json!({"cell": cell, "kind": 0, "cap": cap, "variant": variant, "ops": ops});
+    let tk = cx.tk.min(1);
+    let case = json!({"cell": cell, "kind": 0, "cap": cap, "variant": variant, "tk": tk, "ops": ops});
     let npush = ops.iter().filter(|&&o| o >= 1000).count();
-    cx.sum.eval(cell, &format!("q {} {} {:?}", cap, variant, ops), npush >= 2 && ops.iter().any(|&o| o == 2 || o == 3));
+    cx.sum.eval(cell, &format!("q {} {} {} {:?}", cap, variant, tk, ops), npush >= 2 && ops.iter().any(|&o| o == 2 || o == 3));
     let counters: Arc<Vec<AtomicU32>> = Arc::new((0..npush + 1).map(|_| AtomicU32::new(0)).collect());
     let r = guarded(|| {
         let q = WorkStealingQueue::new(0, cap);
@@ -184,7 +201,7 @@ fn queue_case(cx: &mut Ctx, cap: usize, variant: u64, ops: &[i64], force: bool) 
         };
         for &o in ops {
             if o >= 1000 {
-                let ok = q.push_local(mk_task(next, o, &counters)).is_ok();
+                let ok = q.push_local(mk_task(tk, next, o, &counters)).is_ok();
                 if ok { inside[next] = true; }
                 obs.push(if ok { 1 } else { 0 });
                 next += 1;
@@ -200,6 +217,7 @@ fn queue_case(cx: &mut Ctx, cap: usize, variant: u64, ops: &[i64], force: bool) 
                 let n = q.len();
                 let want = inside.iter().filter(|&&b| b).count();
                 if n != want { problems.push(format!("len() = {} but {} tasks are inside", n, want)); }
+                if q.is_empty() != (want == 0) { problems.push(format!("is_empty() = {} but {} tasks are inside", q.is_empty(), want)); }
                 obs.push(n as i64);
             }
         }
@@ -240,8 +258,9 @@ fn queue_case(cx: &mut Ctx, cap: usize, variant: u64, ops: &[i64], force: bool) 
 // ---------------------------------------------------------------------------------------------
 fn queue_threads_case(cx: &mut Ctx, cap: usize, thieves: usize, codes: &[i64], balance_every: usize) {
     let cell = "WorkStealingQueue/threads";
-    let case = json!({"cell": "qthreads", "kind": 15, "cap": cap, "thieves": thieves, "balance_every": balance_every, "ops": codes});
-    cx.sum.eval(cell, &format!("qt {} {} {} {:?}", cap, thieves, balance_every, codes), codes.len() >= 2);
+    let tk = cx.tk.min(1);
+    let case = json!({"cell": "qthreads", "kind": 15, "cap": cap, "thieves": thieves, "balance_every": balance_every, "tk": tk, "ops": codes});
+    cx.sum.eval(cell, &format!("qt {} {} {} {} {:?}", cap, thieves, balance_every, tk, codes), codes.len() >= 2);
     cx.sum.cell_status(cell, "S-only");
     let n = codes.len();
     let counters: Arc<Vec<AtomicU32>> = Arc::new((0..n + 1).map(|_| AtomicU32::new(0)).collect());
@@ -264,7 +283,7 @@ fn queue_threads_case(cx: &mut Ctx, cap: usize, thieves: usize, codes: &[i64], b
         let mut accepted = vec![false; n];
         let mut owner: Vec<i64> = vec![];
         for (i, &c) in cv.iter().enumerate() {
-            accepted[i] = q.push_local(mk_task(i, c, &counters)).is_ok();
+            accepted[i] = q.push_local(mk_task(tk, i, c, &counters)).is_ok();
             if balance_every > 0 && i % balance_every == balance_every - 1 { q.balance(); }
             if i % 3 == 2 { if let Some(t) = q.pop_local() { owner.push(task_id(&t)); } }
         }
@@ -313,7 +332,7 @@ struct ExecOutcome {
 /// mode 1: let the workers go idle first, then submit; mode 2: idle first and yield between submissions;
 /// mode 3: the workers have been idle for 120 ms (past their spin phase, deep in the sleep back-off);
 /// mode 4: two waves - the second half is submitted after the first half has drained and the executor went idle
-async fn exec_body(nw: usize, cap: usize, mode: u64, codes: Vec<i64>) -> ExecOutcome {
+async fn exec_body(nw: usize, cap: usize, mode: u64, codes: Vec<i64>, tk: u8) -> ExecOutcome {
     let n = codes.len();
     // ids 0..n are the submitted tasks, n..2n the children that behaviour-5 tasks submit from inside a worker
     let counters: Arc<Vec<AtomicU32>> = Arc::new((0..2 * n + 1).map(|_| AtomicU32::new(0)).collect());
@@ -337,7 +356,7 @@ async fn exec_body(nw: usize, cap: usize, mode: u64, codes: Vec<i64>) -> ExecOut
         }
         let t = CountTask { id: i, prio: code_prio(c), steal: code_steal(c), beh: code_beh(c), counters: counters.clone(),
                             nest: if code_beh(c) == 5 { Some((ex.clone(), n, child.clone())) } else { None } };
-        out.accept.push(ex.submit(Box::new(t)).is_ok());
+        out.accept.push(submit_k(&ex, tk, i, t).is_ok());
         if mode == 2 && i % 3 == 2 { tokio::task::yield_now().await; }
     }
     out.queued_after_submit = ex.total_queued();
@@ -384,13 +403,14 @@ async fn exec_body(nw: usize, cap: usize, mode: u64, codes: Vec<i64>) -> ExecOut
 
 fn exec_case(cx: &mut Ctx, nw: usize, cap: usize, rt: usize, mode: u64, codes: &[i64], force: bool) {
     let cell = format!("WorkStealingExecutor/{}", if rt == 0 { "current_thread".to_string() } else { format!("multi_thread({})", rt) });
-    let case = json!({"cell": "executor", "kind": 10, "nw": nw, "cap": cap, "rt": rt, "mode": mode, "ops": codes});
-    cx.sum.eval(&cell, &format!("x {} {} {} {} {:?}", nw, cap, rt, mode, codes), codes.len() >= 2);
+    let tk = cx.tk;
+    let case = json!({"cell": "executor", "kind": 10, "nw": nw, "cap": cap, "rt": rt, "mode": mode, "tk": tk, "ops": codes});
+    cx.sum.eval(&cell, &format!("x {} {} {} {} {} {:?}", nw, cap, rt, mode, tk, codes), codes.len() >= 2);
     cx.sum.cell_status(&cell, "S-only");
     cx.sum.dist(&format!("exec_workers={}", nw));
     cx.sum.dist(&format!("exec_tasks_vs_capacity={}", if codes.len() < nw * cap { "below" } else if codes.len() == nw * cap { "equal" } else { "above" }));
     let cv = codes.to_vec();
-    let r = guarded(|| with_rt(rt, exec_body(nw, cap, mode, cv)));
+    let r = guarded(|| with_rt(rt, exec_body(nw, cap, mode, cv, tk)));
     match r {
         Err(p) => cx.sum.fail(&cell, None, case, &format!("executor panicked: {}", p)),
         Ok(o) => {
@@ -447,11 +467,25 @@ impl HookFallback for WorkStealingExecutor {}
 /// 6 = is_idle, 40+w = (local, steal, global) queue lengths seen from worker w (where did submit put the task?)
 fn hist_case(cx: &mut Ctx, nw: usize, cap: usize, ops: &[i64], force: bool) {
     let cell = "WorkStealingExecutor/history (hook)";
-    let case = json!({"cell": "hist", "kind": 6, "nw": nw, "cap": cap, "ops": ops});
+    let tk = cx.tk;
+    let case = json!({"cell": "hist", "kind": 6, "nw": nw, "cap": cap, "tk": tk, "ops": ops});
     let nsub = ops.iter().filter(|&&o| o >= 1000).count();
     let r = guarded(|| {
         let ex = match WorkStealingExecutor::verif_new_paused(nw, cap) { Ok(e) => e, Err(_) => return None };
         let counters: Arc<Vec<AtomicU32>> = Arc::new((0..nsub + 1).map(|_| AtomicU32::new(0)).collect());
+        // task kind 2: a task that went in through submit_closure carries no identity; whatever find_task hands out is run at
+        // once (tasks of these histories return at their first poll) and recognised by the counter it bumps
+        let ran_before: std::cell::RefCell<Vec<u32>> = std::cell::RefCell::new(vec![0; nsub + 1]);
+        let c2 = counters.clone();
+        let ident = |t: &mut Option<Box<dyn Task>>| -> i64 {
+            if tk != 2 { return t.as_ref().map(task_id).unwrap_or(-1); }
+            let fut = match guarded(|| t.take().unwrap().execute()) { Ok(f) => f, Err(_) => return -3 };
+            let _ = with_rt(0, fut);
+            let mut prev = ran_before.borrow_mut();
+            let mut id = -2;
+            for i in 0..prev.len() { let now = c2[i].load(Ordering::SeqCst); if now != prev[i] { if id == -2 { id = i as i64; } prev[i] = now; } }
+            id
+        };
         let mut obs: Vec<i64> = vec![];
         let mut xobs: Vec<i64> = vec![]; // the same history as the fine-grained model sees it (with the observer ops 6 and 40+w)
         let mut accepted = vec![false; nsub];
@@ -459,11 +493,11 @@ fn hist_case(cx: &mut Ctx, nw: usize, cap: usize, ops: &[i64], force: bool) {
         let mut problems: Vec<String> = vec![];
         let mut next = 0usize;
         let took = |t: Option<Box<dyn Task>>, out: &mut Vec<u32>, problems: &mut Vec<String>| -> i64 {
-            match t { None => -1, Some(t) => { let id = task_id(&t); if id >= 0 && (id as usize) < out.len() { out[id as usize] += 1; } else { problems.push(format!("unknown task {}", id)); } id } }
+            match t { None => -1, some => { let mut some = some; let id = ident(&mut some); if id >= 0 && (id as usize) < out.len() { out[id as usize] += 1; } else { problems.push(format!("unknown task {} (-2: the task that find_task handed out ran no submitted body when executed, -3: its execute() panicked)", id)); } id } }
         };
         for &o in ops {
             if o >= 1000 {
-                let ok = ex.submit(mk_task(next, o, &counters)).is_ok();
+                let ok = submit_k(&ex, tk, next, CountTask { id: next, prio: code_prio(o), steal: code_steal(o), beh: code_beh(o), counters: counters.clone(), nest: None }).is_ok();
                 accepted[next] = ok;
                 obs.push(if ok { 1 } else { 0 });
                 xobs.push(if ok { 1 } else { 0 });
@@ -502,10 +536,10 @@ fn hist_case(cx: &mut Ctx, nw: usize, cap: usize, ops: &[i64], force: bool) {
         Some((obs, problems))
     });
     match r {
-        Err(p) => { cx.sum.eval(cell, &format!("h {} {} {:?}", nw, cap, ops), true); cx.sum.fail(cell, None, case, &format!("panicked: {}", p)) }
+        Err(p) => { cx.sum.eval(cell, &format!("h {} {} {} {:?}", nw, cap, tk, ops), true); cx.sum.fail(cell, None, case, &format!("panicked: {}", p)) }
         Ok(None) => { cx.sum.dist("hook_missing_history_cell_skipped"); }
         Ok(Some((obs, problems))) => {
-            cx.sum.eval(cell, &format!("h {} {} {:?}", nw, cap, ops), nsub >= 2 && ops.iter().any(|&o| (10..1000).contains(&o)));
+            cx.sum.eval(cell, &format!("h {} {} {} {:?}", nw, cap, tk, ops), nsub >= 2 && ops.iter().any(|&o| (10..1000).contains(&o)));
             let stripped: Vec<i64> = ops.iter().map(|&o| if o >= 1000 { o % 10000 } else { o }).collect();
             // the old model on the history without the observer ops, then the fine-grained executor model on all of it
             cx.coq(16, nw as u64, cap as u64, &stripped, &obs, &case, force);
@@ -540,8 +574,9 @@ impl Task for OrderTask {
 }
 fn order_case(cx: &mut Ctx, cap: usize, codes: &[i64], force: bool) {
     let cell = "WorkStealingExecutor/worker_loop order (1 worker)";
-    let case = json!({"cell": "order", "kind": 5, "cap": cap, "ops": codes});
-    cx.sum.eval(cell, &format!("o {} {:?}", cap, codes), codes.len() >= 2);
+    let tk = cx.tk;
+    let case = json!({"cell": "order", "kind": 5, "cap": cap, "tk": tk, "ops": codes});
+    cx.sum.eval(cell, &format!("o {} {} {:?}", cap, tk, codes), codes.len() >= 2);
     let cv: Vec<i64> = codes.iter().map(|c| c % 10000).collect();
     let n = cv.len();
     let cv2 = cv.clone();
@@ -550,7 +585,7 @@ fn order_case(cx: &mut Ctx, cap: usize, codes: &[i64], force: bool) {
         let ex = match WorkStealingExecutor::new(1, cap) { Ok(e) => e, Err(_) => return None };
         let mut accept = vec![];
         for (i, &c) in cv2.iter().enumerate() {
-            accept.push(ex.submit(Box::new(OrderTask { id: i, prio: code_prio(c), steal: code_steal(c), log: log.clone() })).is_ok());
+            accept.push(submit_k(&ex, tk, i, OrderTask { id: i, prio: code_prio(c), steal: code_steal(c), log: log.clone() }).is_ok());
         }
         let want = accept.iter().filter(|&&b| b).count();
         let t0 = Instant::now();
@@ -1354,6 +1389,9 @@ fn helper_case(cx: &mut Ctx, which: u64, rt: usize, limit: usize, xs: &[i64]) {
     }
 }
 
+#[path = "c18_wide.rs"]
+mod wide;
+
 // ---------------------------------------------------------------------------------------------
 // replay
 // ---------------------------------------------------------------------------------------------
@@ -1362,6 +1400,8 @@ fn u(v: &Value, d: u64) -> u64 { v.as_u64().unwrap_or(d) }
 
 fn run_one(cx: &mut Ctx, c: &Value) {
     let ops = ints(&c["ops"]);
+    cx.tk = u(&c["tk"], 0).min(2) as u8;
+    if wide::run_one(cx, c) { return; }
     match c["cell"].as_str().unwrap_or("") {
         "WorkStealingQueue" => {
             let ops: Vec<i64> = ops.into_iter().filter(|&o| (1..=4).contains(&o) || is_task_code(o)).collect();
@@ -1430,7 +1470,7 @@ fn enumerate_queue(cx: &mut Ctx, len: usize, alphabet: &[i64], cap: usize, strid
 
 pub fn run(args: &Args) {
     let mut cx = Ctx {
-        sum: Summary::new("C18", "corpus; all WorkStealingQueue histories of <= 6 operations over push(prio 0/1, stealable or not)/pop_local/steal/balance + random histories around the capacity; the running executor with 1, 2, 3, 4 workers on current-thread and multi-thread runtimes, task counts around workers*capacity, around the global overflow and around the balance trigger (100 executed), mixed priorities/stealability/task behaviour (incl. tasks that fail, that panic, and that submit children from inside a worker), workers busy / idle / idle for 120 ms when the tasks arrive, a second wave after a complete drain; executor histories through the paused-executor hook (all interleavings of submit/find_task/balance of small shape for 1 and 2 workers + random ones for 1..4 workers); FiberPool histories (1..9 gated bodies that succeed, fail or panic, max_fibers 1..n+1, random gate orders); executor histories with is_idle and queue-length observers around the capacity; parallel_map/for_each/reduce, process_batch, execute_single/two_stage, execute_stream (also with panicking stages), BatchCollector (also against the real clock and with its background checker on two threads) and the yield/aio helpers on vectors of length 0..40 with and without failing, panicking and timed-out items, concurrency limits, batch sizes and yield intervals 0, 1, 2, around the input length and beyond. A case is non-trivial when it has >= 2 tasks/items (queue histories: >= 2 pushes and a steal or balance); distinct = distinct canonical case text"),
+        sum: Summary::new("C18", "corpus; all WorkStealingQueue histories of <= 6 operations over push(prio 0/1, stealable or not)/pop_local/steal/balance + random histories around the capacity; the running executor with 1, 2, 3, 4 workers on current-thread and multi-thread runtimes, task counts around workers*capacity, around the global overflow and around the balance trigger (100 executed), mixed priorities/stealability/task behaviour (incl. tasks that fail, that panic, and that submit children from inside a worker), workers busy / idle / idle for 120 ms when the tasks arrive, a second wave after a complete drain; executor histories through the paused-executor hook (all interleavings of submit/find_task/balance of small shape for 1 and 2 workers + random ones for 1..4 workers); FiberPool histories (1..9 gated bodies that succeed, fail or panic, max_fibers 1..n+1, random gate orders); executor histories with is_idle and queue-length observers around the capacity; parallel_map/for_each/reduce, process_batch, execute_single/two_stage, execute_stream (also with panicking stages), BatchCollector (also against the real clock and with its background checker on two threads) and the yield/aio helpers on vectors of length 0..40 with and without failing, panicking and timed-out items, concurrency limits, batch sizes and yield intervals 0, 1, 2, around the input length and beyond; oracle breadth (c18_wide.rs, oracle only): the same queue / hook-history / executor cells with the library's ClosureTask and submit_closure as the task type and with a Task that keeps the trait's default methods, 64 workers and queues of 2^16 / 2^20 slots, executor lifecycles (2-4 waves, statistics at rest, shutdown, submissions after it), the process-wide executor (init_concurrency) shared by all its cases, histories of 3-13 different operations on one FiberPool (5 presets incl. FiberPoolBuilder and FiberPool::default; map / for_each / reduce / spawn_batch / spawn + abort / shutdown, failing and panicking items, unit / String / byte items), on one Pipeline (6 presets incl. PipelineBuilder with every setter, zeros and Duration::MAX; MapStage / BatchMapStage with max_concurrency / FilterStage / suspending and slow stages, execute_single / two_stage / stream with a concurrent consumer / zero stages, the stages' own process_batch) and on one blob store (memory presets, file store, compressed wrappers: put_batch / put / remove / get_batch in permuted order, with duplicates and with a missing id), BatchCollector over unit / u8 / String items with batch limits 0, 1, usize::MAX, inputs of 15..300 items around the yield budget and of 100..65537 items (described by which / n / seed) around the batch size 100, the buffer 1000, the in-flight limit 10000, 4096, 2^16 and multiples of the CPU count through 17 entry points, histories on the yield points for 7 budget configurations, real files around 64 KiB and 256 KiB through FiberAio, spawn_blocking / Fiber / abort. A case is non-trivial when it has >= 2 tasks/items (queue histories: >= 2 pushes and a steal or balance); distinct = distinct canonical case text"),
         shards: CoqShards::new(&header(), 300),
         budget: {
             let mut b = [0usize; NK];
@@ -1450,6 +1490,8 @@ pub fn run(args: &Args) {
         used: [0; NK],
         rng: Rng::new(args.seed),
         thorough: args.thorough,
+        tk: 0,
+        objs: std::rc::Rc::new(wide::Objs::new()),
     };
     for c in ["WorkStealingQueue", "WorkStealingExecutor::submit", "FiberPool::parallel_map", "concurrency::parallel_map", "concurrency::join_all",
               "FiberPool::spawn_batch", "FiberPool::parallel_reduce", "FiberPool::parallel_for_each", "Pipeline::process_batch", "BatchCollector",
@@ -1803,6 +1845,9 @@ pub fn run(args: &Args) {
             }
         }
     }
+    // 7. oracle breadth (c18_wide.rs): the library's own task type, lifecycles, reused pools / pipelines / stores, presets and
+    // builders, further element types, thresholds and big inputs
+    wide::generate(&mut cx);
     cx.sum.dist_max("coq_cases", cx.shards.len() as u64);
     let sh = cx.shards.write(&args.out);
     cx.sum.write(&args.out, sh);
